@@ -78,7 +78,7 @@ def gl_nodes(edges, order=24):
     return np.concatenate(xs), np.concatenate(ws)
 
 
-def axis_nodes(lo, hi, bounded, mean, sd, order, npanels=241):
+def axis_nodes(lo, hi, bounded, mean, sd, order, npanels=241, refine=1):
     if bounded:
         w = hi - lo
         fr = np.array([0.0, 1e-7, 1e-6, 3e-6, 1e-5, 1e-4, 1e-3, 5e-3, 0.02, 0.06, 0.12, 0.2, 0.3, 0.4, 0.5])
@@ -91,6 +91,8 @@ def axis_nodes(lo, hi, bounded, mean, sd, order, npanels=241):
         edges = lo + w * np.array(fine)
     else:
         edges = np.linspace(mean - 14 * sd, mean + 14 * sd, npanels)
+    if refine > 1:
+        edges = np.concatenate([np.linspace(a, b, refine + 1)[:-1] for a, b in zip(edges[:-1], edges[1:])] + [edges[-1:]])
     return gl_nodes(edges, order)
 
 
@@ -176,30 +178,13 @@ def check_flow(flow, aspire, case, lo, hi, data, stage, where, viol, counters):
         allx = np.concatenate([xd0, data])
         cen = 0.5 * (allx.min(axis=0) + allx.max(axis=0))
         sds = np.maximum((allx.max(axis=0) - allx.min(axis=0)) / 14.0, np.maximum(xd0.std(axis=0), data.std(axis=0)))
-    axes = [axis_nodes(lo[j], hi[j], bounded, cen[j], max(sds[j], 1e-3 * (hi[j] - lo[j])), order, 241 if d == 1 else 57) for j in range(d)]
-    if d == 1:
-        pts = axes[0][0][:, None]
-        wts = axes[0][1]
-    else:
-        # coarser tensor grid in 2-D
-        ax = []
-        for j in range(2):
-            x, w = axes[j]
-            ax.append((x, w))
-        X, Y = np.meshgrid(ax[0][0], ax[1][0], indexing="ij")
-        pts = np.column_stack([X.ravel(), Y.ravel()])
-        wts = np.outer(ax[0][1], ax[1][1]).ravel()
-    lp = []
-    B = 40000
-    for i in range(0, len(pts), B):
-        lp.append(np.asarray(to_np(flow.log_prob(pts[i : i + B])), dtype=float))
-    lp = np.concatenate(lp)
-    counters["log_prob_evaluations"] += len(pts)
-    if np.isnan(lp).any() or np.isposinf(lp).any():
-        viol.append({"mech": "C03/log_prob-not-finite-inside-support", "detail": f"{where} [{stage}]: {int(np.isnan(lp).sum())} NaN, {int(np.isposinf(lp).sum())} +inf of {len(lp)} quadrature nodes"})
-        return
-    integral = float(np.sum(wts * np.exp(lp)))
-    counters["integrals_evaluated"] += 1
+    # tolerance of the verdict = tol; the quadrature itself is refined (every panel split in 2, then 3) before a failure is
+    # reported, so that a discretisation error of the rule is never reported as a defect of the density
+    p_tail = 0.0
+    if not bounded:
+        xt = np.asarray(to_np(flow.sample_and_log_prob(20000)[0]), dtype=float)
+        outside = np.any((xt < cen - 14 * sds) | (xt > cen + 14 * sds), axis=1)
+        p_tail = float(outside.mean()) + 4 * np.sqrt(max(float(outside.mean()), 1.0 / 20000) / 20000) if outside.any() else 0.0
     # Mass the flow itself places inside the documented clipping margin next to a bound: there log_prob evaluates the
     # clipped point, so that mass is (legitimately) missing from the integral.  It is measured from the flow's own draws
     # and only ever relaxes the lower side.
@@ -212,7 +197,35 @@ def check_flow(flow, aspire, case, lo, hi, data, stage, where, viol, counters):
         p_clip = float(inside_margin.mean())
         sig_clip = 4 * np.sqrt(max(p_clip, 1.0 / nd) / nd)
         counters["clip_margin_mass_measured"] += 1
-    if not (1.0 - p_clip - sig_clip - tol <= integral <= 1.0 + tol):
+    for refine in (1, 2, 3):
+        axes = [axis_nodes(lo[j], hi[j], bounded, cen[j], max(sds[j], 1e-3 * (hi[j] - lo[j])), order, 241 if d == 1 else 57, refine=refine) for j in range(d)]
+        if d == 1:
+            pts = axes[0][0][:, None]
+            wts = axes[0][1]
+        else:
+            # coarser tensor grid in 2-D
+            ax = []
+            for j in range(2):
+                x, w = axes[j]
+                ax.append((x, w))
+            X, Y = np.meshgrid(ax[0][0], ax[1][0], indexing="ij")
+            pts = np.column_stack([X.ravel(), Y.ravel()])
+            wts = np.outer(ax[0][1], ax[1][1]).ravel()
+        lp = []
+        B = 40000
+        for i in range(0, len(pts), B):
+            lp.append(np.asarray(to_np(flow.log_prob(pts[i : i + B])), dtype=float))
+        lp = np.concatenate(lp)
+        counters["log_prob_evaluations"] += len(pts)
+        if np.isnan(lp).any() or np.isposinf(lp).any():
+            viol.append({"mech": "C03/log_prob-not-finite-inside-support", "detail": f"{where} [{stage}]: {int(np.isnan(lp).sum())} NaN, {int(np.isposinf(lp).sum())} +inf of {len(lp)} quadrature nodes"})
+            return None
+        integral = float(np.sum(wts * np.exp(lp)))
+        counters["integrals_evaluated"] += 1
+        if 1.0 - p_clip - sig_clip - p_tail - tol <= integral <= 1.0 + tol:
+            break
+        counters["integrals_refined"] += 1
+    if not (1.0 - p_clip - sig_clip - p_tail - tol <= integral <= 1.0 + tol):
         viol.append(
             {
                 "mech": "C03/density-not-normalised-in-native-coordinates",
